@@ -549,8 +549,10 @@ impl CraneliftCompiler {
                     let safe_rhs = bcx.ins().select(rhs_is_zero, one, rhs);
                     let div_res = bcx.ins().urem(lhs, safe_rhs);
 
-                    let res = bcx.ins().select(rhs_is_zero, lhs, div_res);
-                    self.set_dst32(bcx, &insn, res);
+                    let dst64 = self.insn_dst(bcx, &insn);
+                    let rem64 = bcx.ins().uextend(I64, div_res);
+                    let res = bcx.ins().select(rhs_is_zero, dst64, rem64);
+                    self.set_dst(bcx, &insn, res);
                 }
                 ebpf::XOR32_IMM => {
                     // reg[_dst] = (reg[_dst] as u32             ^ insn.imm  as u32) as u64,
